@@ -28,7 +28,7 @@ Print Assumptions C10_quiescent_full_or_waiting.
 
 Theorem C10_good_attempt_adds_session : forall p,
   ph p = Waiting -> queue p = [] -> cancelled p = false ->
-  let good := {| a_conn_ok := true; a_sess_ok := true; a_ping_ok := true |} in
+  let good := {| a_conn_ok := true; a_sess_ok := true; a_ping_ok := true; a_cancel := false |} in
   let p' := run p [Offer good; Connect; MakeSession; FirstPing] in
   sessions p' = S (sessions p) /\ ph p' = Idle /\ free p' = free p.
 Proof. exact good_attempt_adds_session. Qed.
